@@ -97,7 +97,7 @@ def _inside_case(rng, cls):
 
 
 def gen_cases(rng, tier):
-    n = 700 if tier == "quick" else 20000
+    n = 700 if tier == "quick" else 50000
     cases = []
     for i in range(n):
         cls = "ABM" if rng.random() < 0.45 else "DEVS"
